@@ -203,6 +203,9 @@ impl Property for C17 {
     fn dirty_on_fail(&self) -> bool {
         true
     }
+    fn fuzz_targets(&self) -> Vec<(&'static str, u64, usize)> {
+        vec![("parse_yaml", 1_000_000, 600)]
+    }
     fn rule(&self) -> String {
         "grid {20,0,1,2,3,7,10} x {10000,0,1,999,1000,3000,10001} x {2,0,1,3,4} x {1000,0,1,500,1500,2000,10000} of (sample_count_total, interval_ms_total, sample_count, interval_ms): all 1715 points enumerated exhaustively as ConfigEntity (coverage.extra) and generated points given as entity or as YAML text through init_with_config_file, with a generated bucket phase; collectors, ticker and metric log disabled; oracle: accepted <=> check() accepts; must-refuse (global window cannot exist, or the default window does not tile it) / must-accept (canonical tiling) predicates from the statement; after acceptance a resource first touched on the initialising thread and one first touched on another thread both work (entry, exit) and show the configured geometry (config getters, node geometry accessor, and window behaviour under the virtual clock: a pass at +0 is visible in the default metric until its bucket leaves interval_ms and in a full-ring read stat until interval_ms_total); non-trivial = accepted non-default geometry, or a refused point; distinct = distinct decoded cases".into()
     }
